@@ -241,6 +241,7 @@ pub(super) enum State<'a, 'p> {
         part_i: usize,
         array_i: usize,
         fw: u32,
+        left: bool,
     },
     StdFormatCodesObject1 {
         parts: Rc<Vec<FormatPart>>,
@@ -257,6 +258,7 @@ pub(super) enum State<'a, 'p> {
         parts: Rc<Vec<FormatPart>>,
         part_i: usize,
         fw: u32,
+        left: bool,
         prec: u32,
     },
     StdManifestIni,
